@@ -12,12 +12,12 @@ import (
 
 func init() {
 	register(&Property{
-		ID:        "C14",
-		Roots:     []string{"overlord/snapstate", "overlord/ifacestate", "overlord/devicestate", "daemon"},
-		Technique: "interprocedural guarded-task-creation analysis: every NewTask site of a snap-mutating kind must be cut (SSA CFG) from its function's entry by a successful conflict check, or every call chain leading to it must be, up to the exported entry points; guarded-sink and loop-latch rules on the conflict checker itself",
+		ID:          "C14",
+		Roots:       []string{"overlord/snapstate", "overlord/ifacestate", "overlord/devicestate", "daemon"},
+		Technique:   "interprocedural guarded-task-creation analysis: every NewTask site of a snap-mutating kind must be cut (SSA CFG) from its function's entry by a successful conflict check, or every call chain leading to it must be, up to the exported entry points; guarded-sink and loop-latch rules on the conflict checker itself",
 		Explanation: "Structural necessary conditions for 'no two in-progress changes operate on the same snap': (R1) every creation of a task that links, unlinks, mounts, discards, copies data of, or otherwise mutates a snap (constant kind registered by the snap manager with a link/unlink/mount/discard/data/alias/component effect) is preceded on every path - in its own function or in every caller chain up to an exported entry point - by a successful CheckChangeConflict*/checkChangeConflictIgnoringOneChange call (ifacestate: checkAutoconnect/Disconnect/HotplugDisconnectConflicts; also accepted: a first loop that checks every element of a collection and a second loop over the same collection that creates the tasks); entry points that create such tasks without a check are reported unless listed with a reason (download-only, running inside an already exclusive change); (R2) checkChangeConflictExclusiveKinds rejects, for each exclusive change kind found in progress, unless it is the ignored change, and the creators of exclusive changes call the exclusive check; (R3) isIrrelevantChange says true only for nil, ready, ignored or the two reviewed harmless kinds; (R4) CheckChangeConflictMany advances over the tasks of the state only across irrelevant changes or tasks whose affected snaps do not intersect the requested ones, and reports a conflict otherwise; (R5) checkChangeConflictIgnoringOneChange answers nil for a caller-supplied snapshot only across reflect.DeepEqual(snapst, current); (R6) the affected-snaps registry keeps its registrations (hook-setup, service-action, snapshot-setup, quota-control, connect, disconnect, ...); (R7) the snap names handed to the conflict checks are instance names, never SnapName() results.",
-		NotDecided: "that SnapsAffectedByTask names every snap a task really touches; conflicts between changes created in the same state lock window by different managers; remodel's internal sequencing.",
-		Run:        runC14,
+		NotDecided:  "that SnapsAffectedByTask names every snap a task really touches; conflicts between changes created in the same state lock window by different managers; remodel's internal sequencing.",
+		Run:         runC14,
 	})
 }
 
@@ -34,7 +34,7 @@ var c14MutatingKinds = map[string]bool{
 
 // c14Exempt: functions that may create such tasks without a conflict check of their own or of their callers.
 var c14Exempt = map[string]string{
-	"overlord/snapstate.AddLinkNewBaseOrKernel":                    "only extends, for devicestate's remodel, the task set a checked Install/Update/Path produced; the remodel change itself is exclusive (R2)",
+	"overlord/snapstate.AddLinkNewBaseOrKernel":                "only extends, for devicestate's remodel, the task set a checked Install/Update/Path produced; the remodel change itself is exclusive (R2)",
 	"overlord/ifacestate.(*InterfaceManager).doAutoConnect":    "connect tasks are created (batchConnectTasks) only for the `newconns` map, which autoConnectChecker.addAutoConnections fills after checkAutoconnectConflicts succeeded for each candidate (data dependency; helpers.go); a conflict returns Retry",
 	"overlord/ifacestate.(*InterfaceManager).doHotplugConnect": "the connections it recreates are collected only after checkAutoconnectConflicts succeeded for each of them (data dependency through `recreate`), new ones come from addAutoConnections which runs the same check; a conflict returns Retry",
 }
@@ -316,7 +316,9 @@ func runC14(c *Ctx) {
 		// advance either across irrelevance or by exhausting the affected-snaps loop
 		gate := AtomEdges(irrelevant)
 		q := ReachQ{Fn: many, From: &Loc{taskLoop.Body, -1},
-			CutEdge:  func(b *ssa.BasicBlock, s int) bool { return gate(b, s) || (b == snapLoop.Header && b.Succs[s] == snapLoop.Done) || b.Succs[s] == taskLoop.Done },
+			CutEdge: func(b *ssa.BasicBlock, s int) bool {
+				return gate(b, s) || (b == snapLoop.Header && b.Succs[s] == snapLoop.Done) || b.Succs[s] == taskLoop.Done
+			},
 			SinkEdge: func(b *ssa.BasicBlock, s int) bool { return b.Succs[s] == taskLoop.Header }}
 		r := q.Run()
 		c.Check(!r.Found, "overlord/snapstate.CheckChangeConflictMany#advance", taskLoop.Body.Instrs[0].Pos(), "a task is passed over only if its change is irrelevant or every affected snap was compared", "a task of a relevant change can be passed over without comparing its affected snaps: "+P.PathString(r.Path))
@@ -460,7 +462,9 @@ func guardedByPriorLoop(fn *ssa.Function, site ssa.Instruction, gate Atom) bool 
 			// l1 advances only across the gate
 			g := AtomEdges(gate)
 			q1 := ReachQ{Fn: fn, From: &Loc{l1.Body, -1},
-				CutEdge:  func(b *ssa.BasicBlock, s int) bool { return g(b, s) || b.Succs[s] == l1.Done || !l1.Header.Dominates(b.Succs[s]) },
+				CutEdge: func(b *ssa.BasicBlock, s int) bool {
+					return g(b, s) || b.Succs[s] == l1.Done || !l1.Header.Dominates(b.Succs[s])
+				},
 				SinkEdge: func(b *ssa.BasicBlock, s int) bool { return b.Succs[s] == l1.Header }}
 			if q1.Run().Found {
 				continue
